@@ -44,6 +44,15 @@ func genUniverse(r *common.Rand, size, maxDepth int) []enc.Name {
 		}
 		pool[r.Intn(width)] = enc.Component{Typ: enc.TypeGenericNameComponent, Val: long}
 	}
+	if r.Chance(1, 4) {
+		// a twin of the component "a" (slot 0) that differs in its TLV type only, by a multiple of 256 or
+		// beyond 16 / 32 bits: whatever keys a table by a narrowed or packed type conflates the two
+		if &pool[0] == &compPool[0] {
+			pool = append([]enc.Component(nil), compPool...)
+		}
+		typ := common.Pick(r, []uint64{264, 8 + 4096, 8 + 65280, 8 + 1<<32, 8 + 1<<56})
+		pool[1+r.Intn(width-1)] = enc.Component{Typ: enc.TLNum(typ), Val: []byte("a")}
+	}
 	for tries := 0; len(u) < size && tries < size*20; tries++ {
 		var base enc.Name
 		if r.Chance(2, 3) {
